@@ -44,6 +44,11 @@ impl<A: Tracker> PieInternal<A> {
   pub fn resource_state_mut<R: Resource>(&mut self) -> &mut impl ResourceState<R> { &mut self.resource_state }
 }
 
+#[cfg(feature = "gohla_pie_verif")]
+impl<A> PieInternal<A> {
+  pub fn verif_dump_store(&self) -> crate::store::verif::StoreDump { self.store.verif_dump() }
+}
+
 /// Internals for [`Session`].
 pub struct SessionInternal<'p> {
   pub store: &'p mut Store,
